@@ -47,13 +47,13 @@ def gen_dcontent(rng, size=None):
 def gen_dname(rng, used, auto_bat=False):
     for _ in range(300):
         if auto_bat and rng.random() < 0.05:
-            name, ext = rng.choice(["auto", "AUTO", "Auto"]), rng.choice(["bat", "BAT"])
+            name, ext = rng.choice(["auto", "AUTO", "Auto"]), rng.choice(["bat", "BAT", "bat", "bat,a", "BAT,A"])
         elif used and rng.random() < 0.12:
             # a base name already taken on this side, with another extension (GAME.BAS then GAME.BIN): distinct 8.3 names
             name, ext = rng.choice(sorted(used))[0].lower(), rng.choice(DEXTS)
         elif rng.random() < 0.06:
             # whole names that spell an extension or a special name of the documentation, with any extension or none
-            name, ext = rng.choice(["bas", "BAS", "bin", "Bin", "txt", "TXT", "bat", "auto", "AUTO", "dat", "a"]), rng.choice(["", "", "", "bas", "bat", "txt", "a"])
+            name, ext = rng.choice(["bas", "BAS", "bin", "Bin", "txt", "TXT", "bat", "auto", "AUTO", "dat", "a"]), rng.choice(["", "", "", "bas", "bat", "txt", "a", "bat,a", "txt,a", "bin,A"])
         else:
             n = rng.choice([1, 2, 3, 5, 7, 8, 8])
             name = "".join(rng.choice(DNAME) for _ in range(n))
@@ -68,7 +68,7 @@ def gen_dname(rng, used, auto_bat=False):
         arg = name + ("." + ext if ext != "" or rng.random() < 0.5 else "")
         if arg.endswith(".") and ext == "":
             pass
-        cat = (name.upper(), "BAS" if ext.upper() == "BAS,A" else ext.upper())
+        cat = (name.upper(), ext.upper()[:-2] if ext.upper().endswith(",A") else ext.upper())
         if cat in used:
             continue
         used.add(cat)
